@@ -301,6 +301,14 @@ G_Term(cls, m, n, b, seed, depth, mode) ==
        [] cls = "CatIRows" -> Op_Cat(<<Op_Identity(n, b1), G_Term("Dense", n, n, b1, seed + 3, 0, 0)>>, -2)
        \* a square Kronecker product of RECTANGULAR factors: (1 x 2) kron (n x n/2)
        [] cls = "KronRect" -> Op_Kron(<<G_Term("Dense", 1, 2, b1, seed + 3, 0, 0), G_Term("Dense", n, n \div 2, b1, seed + 5, 0, 0)>>)
+       \* grid-interpolation form W K W^T with TWO weights per row (its approximate diagonal differs from the true one)
+       [] cls = "Interp2" ->
+            LET km == 3
+                li == G_InterpIdx(m, 2, km, b, seed)
+                ri == IF mode = 1 THEN li ELSE G_InterpIdx(n, 2, km, b, seed + 1)
+                lv == G_Small(b \o <<m, 2>>, seed + 2)
+                rv == IF mode = 1 THEN lv ELSE G_Small(b \o <<n, 2>>, seed + 4)
+            IN Op_Interp(G_Term("Dense", km, km, b, seed + 3, 0, mode), li, lv, ri, rv)
        [] cls = "InterpLeft" ->
             LET km == 2 + (seed % 2) p == 1 + (seed % 2)
             IN Op_InterpLeft(G_Term("Dense", km, n, b, seed + 3, 0, 0), G_InterpIdx(m, p, km, b, seed), G_Small(b \o <<m, p>>, seed + 2))
@@ -328,7 +336,7 @@ G_AllClasses == <<"Dense", "User", "Diag", "ConstDiag", "Identity", "Zero", "Toe
 G_SquareOnly == {"KronAddedKronConstDiag", "BlockInterDiag", "CholDiag", "KronAddedKronDiag", "MixedSpectrum", "AddedDiagKBc", "TriRepeat", "BlockDiagRepeat", "BlockInterRepeat", "SumBatchRepeat", "AddedDiagRootI", "AddedDiagKronI", "CholKronTriU", "LowRankHuge", "ConstMulI", "BlockDiagConstMulI", "InterpRootSameIdx", "MatmulTri", "LRRAddedDiagI", "AddedDiagI", "SumI", "Diag", "ConstDiag", "Identity", "Toeplitz", "Tri", "Chol", "CholU", "Root", "LowRankRoot", "Kron3", "KronTri",
                  "KronDiag", "KronAddedDiag", "SumKron", "AddedDiag", "LRRAddedDiag", "PsdSum", "Mul", "BlockDiag",
                  "BlockInter", "Perm", "TransPerm"}
-G_LeafClasses == {"KronRect", "KronAddedKronConstDiag", "InterpLeft", "CatICols", "CatIRows", "BlockInterDiag", "CholDiag", "KronAddedKronDiag", "MixedSpectrum", "AddedDiagKBc", "TriRepeat", "BlockDiagRepeat", "BlockInterRepeat", "SumBatchRepeat", "KernelM", "AddedDiagRootI", "AddedDiagKronI", "ConstMulBc", "CholKronTriU", "LowRankHuge", "ConstMulI", "BlockDiagConstMulI", "InterpRootSameIdx", "MixedDef", "AddedDiagRootConst", "AddedDiagBig", "DenseBig", "KronCholU", "BlockDiagCholU", "SumInterp", "MatmulTri", "LRRAddedDiagI", "AddedDiagI", "SumI", "Dense", "User", "Diag", "ConstDiag", "Identity", "Zero", "Toeplitz", "Chol", "CholU", "SumZ", "LowRankRoot", "KronTri",
+G_LeafClasses == {"Interp2", "KronRect", "KronAddedKronConstDiag", "InterpLeft", "CatICols", "CatIRows", "BlockInterDiag", "CholDiag", "KronAddedKronDiag", "MixedSpectrum", "AddedDiagKBc", "TriRepeat", "BlockDiagRepeat", "BlockInterRepeat", "SumBatchRepeat", "KernelM", "AddedDiagRootI", "AddedDiagKronI", "ConstMulBc", "CholKronTriU", "LowRankHuge", "ConstMulI", "BlockDiagConstMulI", "InterpRootSameIdx", "MixedDef", "AddedDiagRootConst", "AddedDiagBig", "DenseBig", "KronCholU", "BlockDiagCholU", "SumInterp", "MatmulTri", "LRRAddedDiagI", "AddedDiagI", "SumI", "Dense", "User", "Diag", "ConstDiag", "Identity", "Zero", "Toeplitz", "Chol", "CholU", "SumZ", "LowRankRoot", "KronTri",
                   "KronDiag", "SumKron", "LRRAddedDiag", "Perm", "TransPerm", "Kernel"}
 \* classes that only exist for PSD arguments
 G_PsdOnly == {"CholDiag", "MixedSpectrum", "BlockDiagRepeat", "BlockInterRepeat", "SumBatchRepeat", "CholKronTriU", "Chol", "CholU", "PsdSum", "Mul"}
